@@ -1,4 +1,6 @@
 """Contracts (sidecar), their use at call sites, and the verification of a function body against its contract."""
+import os
+import sys
 import time
 import traceback
 import z3
@@ -441,6 +443,9 @@ def _verify_body(eng, contract, target, mod, cname, node, res, seed, timeout_ms,
             raise Unsupported('break/continue outside loop')
         outs.append(o)
     res.paths = len(outs)
+    if os.environ.get('PYVC_DEBUG_OUTS'):
+        for o in outs:
+            print('OUT', o.kind, getattr(o.val, 'cls', o.val), len(o.ctx.pc), file=sys.stderr)
     eng.stats['paths'] = len(outs)
     if not outs:
         raise Unsupported('no feasible path through the function')
@@ -550,6 +555,11 @@ def _verify_body(eng, contract, target, mod, cname, node, res, seed, timeout_ms,
                     for mn, mt in (contract.must_fail(cc) or {}).items():
                         if mn.startswith(case.name + ':'):
                             add('%s/canary.%s' % (tname, mn), hyps0 + [g], mt, 'canary', expect='refuted-somewhere')
+    # a case that no path of the body realises is dead specification (or a hole in the executor's model of the environment)
+    for case in contract.cases:
+        nm_ = '%s/%s.reach' % (tname, case.name)
+        if not case.forbid and nm_ not in agg:
+            add(nm_, [z3.BoolVal(False)], z3.BoolVal(False), 'reach', expect='refuted-somewhere')
     # ---- discharge (fork-parallel): phase 1 bundles (obligations sharing their hypotheses, tried as one conjunction),
     # phase 2 the remaining obligations, each name handled entirely by one worker
     import os as _os
